@@ -150,3 +150,26 @@ theorem C17_tr_ftp_request_file (s : Server) (b : Backup) (pq pr big k lost : Bo
     (try (cases s; simp_all))
 
 end Primaite.Database
+
+namespace Primaite.Database
+open Primaite.Gen.DatabaseFtpTr
+
+/-- **The stored copy, through the translated store path.**  `FTPClient.send_file` → `_send_data` → (delivery) →
+`FTPServer.receive` → `_process_ftp_command` → `FTPServiceABC._store_data`, all as translated from the source: a transfer that
+reports success found no copy on the backup host and leaves exactly the database file's health there; while a copy exists the
+transfer reports failure and the backup host is untouched. -/
+theorem C17_tr_stored_copy (s : Server) (b : Backup) (pq pr big k lost : Bool) :
+    ((sendFile ⟨s, b, pq, pr, big, k, lost⟩ .dbFile .stored).2 = true →
+      b.stored = none ∧ (sendFile ⟨s, b, pq, pr, big, k, lost⟩ .dbFile .stored).1.b.stored = s.file ∧ s.file.isSome) ∧
+    (b.stored.isSome → (sendFile ⟨s, b, pq, pr, big, k, lost⟩ .dbFile .stored).2 = false ∧
+      (sendFile ⟨s, b, pq, pr, big, k, lost⟩ .dbFile .stored).1.b = b) := by
+  have h := C17_tr_ftp_send_file s b pq pr big k lost
+  have h1 : (sendFile ⟨s, b, pq, pr, big, k, lost⟩ .dbFile .stored).1.b = (ftpSendFile s b pq big).2.1 := by
+    have := congrArg (fun x => x.2.1) h; simpa using this
+  have h2 : (sendFile ⟨s, b, pq, pr, big, k, lost⟩ .dbFile .stored).2 = (ftpSendFile s b pq big).2.2 := by
+    have := congrArg (fun x => x.2.2) h; simpa using this
+  rw [h1, h2]
+  unfold ftpSendFile
+  cases hf : s.file <;> cases hs : b.stored <;> dsimp only <;> (repeat' split) <;> simp_all
+
+end Primaite.Database
